@@ -1,5 +1,27 @@
-import PyemvGen.ModGen
-import PyemvProofs.Tdes
+import PyemvGen.Mod.tools_xor
+import PyemvGen.Mod.tools_odd_parity
+import PyemvGen.Mod.tools_adjust
+import PyemvGen.Mod.tools_kcv
+import PyemvGen.Mod.tools_cbc
+import PyemvGen.Mod.tools_ecb
+import PyemvGen.Mod.mac_pad1
+import PyemvGen.Mod.mac_pad2
+import PyemvGen.Mod.mac_mac3
+import PyemvGen.Mod.ac_generate_ac
+import PyemvGen.Mod.ac_generate_arpc_1
+import PyemvGen.Mod.ac_generate_arpc_2
+import PyemvGen.Mod.kd_derive_icc_mk_a
+import PyemvGen.Mod.kd_derive_icc_mk_b
+import PyemvGen.Mod.kd_derive_common_sk
+import PyemvGen.Mod.kd_derive_visa_sm_sk
+import PyemvGen.Mod.sm_generate_command_mac
+import PyemvGen.Mod.sm_encrypt_command_data
+import PyemvGen.Mod.sm_format_iso2
+import PyemvGen.Mod.sm_format_vis
+import PyemvGen.Mod.cvv_generate_cvc3
+import PyemvGen.Mod.kd_tree_derive
+import PyemvGen.Mod.kd_tree_walk
+import PyemvGen.Mod.kd_tree_sk
 /-!
 # Refinement: every function translated from the source equals the hand-written Impl model
 
@@ -8,299 +30,3 @@ import PyemvProofs.Tdes
 `PyemvModel` that all property theorems are about — for every argument.  A change to one of those source
 functions that changes its behaviour breaks the corresponding proof.
 -/
-namespace Pyemv.ModRefines
-open Pyemv Pyemv.Gen
-
-theorem rep_flatten {α} (n : Nat) (x : α) : (List.replicate n [x]).flatten = List.replicate n x := by
-  induction n with
-  | zero => rfl
-  | succ n ih => simp [List.replicate_succ, ih]
-
-theorem fromLE_lt (l : Bytes) : fromLE l < 256 ^ l.length := by
-  induction l with
-  | nil => simp [fromLE]
-  | cons b bs ih =>
-    simp only [fromLE, List.length_cons, Nat.pow_succ]
-    have := b.toNat_lt
-    omega
-
-theorem pow256 (k : Nat) : (256 : Nat) ^ k = 2 ^ (8 * k) := by
-  rw [show (256 : Nat) = 2 ^ 8 from rfl, ← Nat.pow_mul]
-
-theorem xor_fits (a b : Bytes) : fromLE a ^^^ fromLE (b.take a.length) < 256 ^ a.length := by
-  rw [pow256]
-  apply Nat.xor_lt_two_pow
-  · rw [← pow256]; exact fromLE_lt a
-  · rw [← pow256]
-    exact Nat.lt_of_lt_of_le (fromLE_lt _) (Nat.pow_le_pow_right (by omega) (by simp; omega))
-
-/-! ### tools -/
-
-theorem tools_xor (a b : Bytes) : Gen.tools.xor a b = .ok (Pyemv.xor a b) := by
-  unfold Gen.tools.xor toBytesLE Pyemv.xor
-  simp only [xor_fits a b, if_true, bind, Except.bind, pure, Except.pure]
-
-theorem tools_odd_parity (n : Nat) : Gen.tools.odd_parity n = oddParity n := rfl
-
-theorem tools_adjust (k : Bytes) : Gen.tools.adjust_key_parity k = .ok (adjustKeyParity k) := by
-  unfold Gen.tools.adjust_key_parity adjustKeyParity
-  simp only [tools_odd_parity, pure, Except.pure, Except.ok.injEq]
-  apply List.map_congr_left
-  intro b _
-  by_cases h : oddParity b.toNat = 0 <;> simp [h]
-
-theorem tools_kcv (k : Bytes) (n : Nat) : Gen.tools.key_check_digits k n = keyCheckDigits k n := by
-  unfold Gen.tools.key_check_digits keyCheckDigits
-  rfl
-
-theorem tools_cbc (k iv d : Bytes) : Gen.tools.encrypt_tdes_cbc k iv d = encryptTdesCbc k iv d := by
-  unfold Gen.tools.encrypt_tdes_cbc encryptTdesCbc
-  simp only [bind, Except.bind, pure, Except.pure]
-  repeat (first | rfl | split)
-
-theorem tools_ecb (k d : Bytes) : Gen.tools.encrypt_tdes_ecb k d = encryptTdesEcb k d := by
-  unfold Gen.tools.encrypt_tdes_ecb encryptTdesEcb
-  rfl
-
-/-! ### mac -/
-
-theorem mac_pad1 (d : Bytes) (bs : Option Nat) : Gen.mac.pad_iso9797_1 d bs = pad1 d bs := by
-  unfold Gen.mac.pad_iso9797_1 pad1 pyMod
-  by_cases h : bs.getD 8 = 0
-  · simp [h, bind, Except.bind]
-  · simp only [h, if_false, bind, Except.bind, pure, Except.pure, rep_flatten, zeros, gt_iff_lt]
-    repeat (first | rfl | split)
-
-theorem mac_pad2 (d : Bytes) (bs : Option Nat) : Gen.mac.pad_iso9797_2 d bs = pad2 d bs := by
-  unfold Gen.mac.pad_iso9797_2 pad2
-  simp only [mac_pad1, bind, Except.bind, pure, Except.pure]
-  repeat (first | rfl | split)
-
-theorem mac_mac3 (k1 k2 d : Bytes) (pm : Int) (l : Option Nat) : Gen.mac.mac_iso9797_3 k1 k2 d pm l = mac3 k1 k2 d pm l := by
-  unfold Gen.mac.mac_iso9797_3 mac3 padSelect macCore
-  simp only [mac_pad1, mac_pad2, zeros, List.replicate, List.length_cons, List.length_nil, bind, Except.bind, pure, Except.pure]
-  by_cases h1 : pm = 1
-  · subst h1
-    simp only [if_true]
-    cases pad1 d (some 8) with
-    | error e => rfl
-    | ok p =>
-      simp only []
-      repeat (first | rfl | split)
-      all_goals simp_all
-  · by_cases h2 : pm = 2
-    · subst h2
-      simp only [show ¬ ((2 : Int) = 1) by decide, if_false, if_true]
-      cases pad2 d (some 8) with
-      | error e => rfl
-      | ok p =>
-        simp only []
-        repeat (first | rfl | split)
-        all_goals simp_all
-    · simp [h1, h2, throw, throwThe, MonadExceptOf.throw]
-
-/-! ### ac -/
-
-theorem ac_generate_ac (sk d : Bytes) (pt : Option PaddingType) (l : Option Nat) :
-    Gen.ac.generate_ac sk d pt l = generateAc sk d pt l := by
-  unfold Gen.ac.generate_ac generateAc
-  by_cases h : sk.length = 16
-  · simp only [h, ne_eq, not_true_eq_false, if_false, tools_ecb, tools_cbc, tools_adjust, mac_mac3, bind, Except.bind, pure, Except.pure]
-    cases hp : pt.getD .emv <;> simp [hp, throw, throwThe, MonadExceptOf.throw] <;>
-      (cases mac3 (sk.take 8) (lastN 8 sk) d _ l <;> rfl)
-  · simp [h, bind, Except.bind, throw, throwThe, MonadExceptOf.throw]
-
-theorem ac_generate_arpc_1 (sk q rc : Bytes) : Gen.ac.generate_arpc_1 sk q rc = generateArpc1 sk q rc := by
-  unfold Gen.ac.generate_arpc_1 generateArpc1
-  simp only [tools_xor, rep_flatten, zeros, tools_ecb, tools_cbc, tools_adjust, mac_mac3, bind, Except.bind, pure, Except.pure]
-  repeat (first | rfl | split)
-  all_goals simp_all
-
-theorem ac_generate_arpc_2 (sk q csu : Bytes) (p : Option Bytes) : Gen.ac.generate_arpc_2 sk q csu p = generateArpc2 sk q csu p := by
-  unfold Gen.ac.generate_arpc_2 generateArpc2
-  simp only [tools_ecb, tools_cbc, tools_adjust, mac_mac3, bind, Except.bind, pure, Except.pure]
-  repeat (first | rfl | split)
-  all_goals simp_all
-
-/-! ### kd -/
-
-theorem kd_derive_icc_mk_a (k : Bytes) (pan : StrOrBytes) (psn : Option StrOrBytes) :
-    Gen.kd.derive_icc_mk_a k pan psn = deriveIccMkA k pan psn := by
-  unfold Gen.kd.derive_icc_mk_a deriveIccMkA keyFromData psnTextR
-  simp only [tools_xor, rep_flatten, tools_ecb, tools_cbc, tools_adjust, mac_mac3, bind, Except.bind, pure, Except.pure]
-  repeat (first | rfl | split)
-  all_goals simp_all
-
-theorem kd_derive_icc_mk_b (k : Bytes) (pan : StrOrBytes) (psn : Option StrOrBytes) :
-    Gen.kd.derive_icc_mk_b k pan psn = deriveIccMkB k pan psn := by
-  unfold Gen.kd.derive_icc_mk_b deriveIccMkB keyFromData psnTextR bcdPanPsn selectDigits pyMod
-  simp only [kd_derive_icc_mk_a, tools_xor, rep_flatten, tools_ecb, tools_cbc, tools_adjust, mac_mac3, bind, Except.bind, pure, Except.pure]
-  by_cases h : pan.len ≤ 16
-  · simp only [h, if_true]
-    repeat (first | rfl | split)
-  · simp only [h, if_false]
-    cases (psn.getD (.str ['0', '0'])).text with
-    | error e => rfl
-    | ok ps =>
-      cases pan.text with
-      | error e => rfl
-      | ok pt =>
-        simp only []
-        have hm : (pt.length % 2 ≠ 0) ↔ (pt.length % 2 = 1) := by omega
-        by_cases hodd : pt.length % 2 = 1
-        · simp only [hodd, show ¬ (2 : Nat) = 0 by omega, if_false, if_true, ne_eq, Nat.one_ne_zero, not_false_eq_true,
-            List.cons_append, List.nil_append, List.singleton_append]
-          cases a2bHex ('0' :: (pt ++ ps)) with
-          | error e => rfl
-          | ok hashed =>
-            simp only []
-            by_cases hl : ((sha1Hex hashed).filter isDec |>.take 16).length < 16
-            · simp only [hl, if_true]
-              repeat (first | rfl | split)
-              all_goals simp_all
-            · simp only [hl, if_false]
-              repeat (first | rfl | split)
-              all_goals simp_all
-        · have h0 : pt.length % 2 = 0 := by omega
-          simp only [h0, show ¬ (2 : Nat) = 0 by omega, if_false, ne_eq, not_true_eq_false, Nat.zero_ne_one]
-          cases a2bHex (pt ++ ps) with
-          | error e => rfl
-          | ok hashed =>
-            simp only []
-            by_cases hl : ((sha1Hex hashed).filter isDec |>.take 16).length < 16
-            · simp only [hl, if_true]
-              repeat (first | rfl | split)
-              all_goals simp_all
-            · simp only [hl, if_false]
-              repeat (first | rfl | split)
-              all_goals simp_all
-
-theorem kd_derive_common_sk (mk r : Bytes) : Gen.kd.derive_common_sk mk r = deriveCommonSk mk r := by
-  unfold Gen.kd.derive_common_sk deriveCommonSk
-  simp only [tools_ecb, tools_cbc, tools_adjust, mac_mac3, bind, Except.bind, pure, Except.pure]
-  repeat (first | rfl | split)
-  all_goals simp_all
-
-theorem kd_derive_visa_sm_sk (mk atc : Bytes) : Gen.kd.derive_visa_sm_sk mk atc = deriveVisaSmSk mk atc := by
-  unfold Gen.kd.derive_visa_sm_sk deriveVisaSmSk
-  simp only [tools_xor, rep_flatten, zeros, tools_ecb, tools_cbc, tools_adjust, mac_mac3, bind, Except.bind, pure, Except.pure]
-  repeat (first | rfl | split)
-  all_goals simp_all
-
-/-! ### sm -/
-
-theorem sm_generate_command_mac (sk c : Bytes) (l : Option Nat) : Gen.sm.generate_command_mac sk c l = generateCommandMac sk c l := by
-  unfold Gen.sm.generate_command_mac generateCommandMac
-  simp only [tools_ecb, tools_cbc, tools_adjust, mac_mac3, bind, Except.bind, pure, Except.pure]
-  repeat (first | rfl | split)
-  all_goals simp_all
-
-theorem sm_encrypt_command_data (sk d : Bytes) (t : EncryptionType) :
-    Gen.sm.encrypt_command_data sk d t = encryptCommandData sk d t := by
-  unfold Gen.sm.encrypt_command_data encryptCommandData pyMod
-  simp only [mac_pad2, tools_ecb, tools_cbc, tools_adjust, mac_mac3, bind, Except.bind, pure, Except.pure]
-  by_cases h : sk.length = 16
-  · simp only [h, ne_eq, not_true_eq_false, if_false]
-    cases t <;> simp [throw, throwThe, MonadExceptOf.throw] <;> repeat (first | rfl | split) <;> simp_all
-  · simp [h, throw, throwThe, MonadExceptOf.throw]
-
-theorem sm_format_iso2 (p : StrOrBytes) : Gen.sm.format_iso9564_2_pin_block p = formatIso2PinBlock p := by
-  unfold Gen.sm.format_iso9564_2_pin_block formatIso2PinBlock
-  simp only [rep_flatten, tools_ecb, tools_cbc, tools_adjust, mac_mac3, bind, Except.bind, pure, Except.pure]
-  repeat (first | rfl | split)
-  all_goals simp_all
-
-theorem sm_format_vis (mk : Bytes) (p : StrOrBytes) (c : Option StrOrBytes) :
-    Gen.sm.format_vis_pin_block mk p c = formatVisPinBlock mk p c := by
-  unfold Gen.sm.format_vis_pin_block formatVisPinBlock
-  simp only [tools_xor, rep_flatten, zeros, tools_ecb, tools_cbc, tools_adjust, mac_mac3, bind, Except.bind, pure, Except.pure]
-  by_cases g1 : p.len < 4 ∨ p.len > 12
-  · simp [g1, throw, throwThe, MonadExceptOf.throw]
-  by_cases g2 : mk.length = 16
-  · simp only [g1, g2, if_false, ne_eq, not_true_eq_false]
-    cases p.text with
-    | error e => rfl
-    | ok pt =>
-      simp only []
-      cases c with
-      | none => first | rfl | (simp only []; done) | (simp only []; repeat (first | rfl | split))
-      | some cc =>
-        simp only []
-        cases cc.text with
-        | error e => rfl
-        | ok ct =>
-          first
-          | rfl
-          | (simp only []; done)
-          | (simp only []
-             cases toBytesBE 1 pt.length with
-             | error e => rfl
-             | ok l =>
-               cases a2bHex (pt ++ List.replicate (14 - pt.length) 'F') with
-               | error e => rfl
-               | ok body =>
-                 simp only []
-                 by_cases g3 : ct.length < 4 ∨ ct.length > 12
-                 · simp [g3, throw, throwThe, MonadExceptOf.throw]
-                 · simp only [g3, if_false]
-                   cases a2bHex (ct ++ List.replicate (16 - ct.length) '0') <;> rfl)
-  · simp [g1, g2, throw, throwThe, MonadExceptOf.throw]
-
-/-! ### cvv -/
-
-theorem cvv_generate_cvc3 (k t a u : Bytes) : Gen.cvv.generate_cvc3 k t a u = generateCvc3 k t a u := by
-  unfold Gen.cvv.generate_cvc3 generateCvc3
-  simp only [tools_ecb, tools_cbc, tools_adjust, mac_mac3, bind, Except.bind, pure, Except.pure]
-  repeat (first | rfl | split)
-  all_goals simp_all
-
-end Pyemv.ModRefines
-
-namespace Pyemv.ModRefines
-open Pyemv Pyemv.Gen
-
-/-! ### the EMV2000 tree (nested closures lifted, recursion on the height) -/
-
-theorem kd_tree_derive (b : Nat) (x y : Bytes) (j : Nat) :
-    Gen.kd.derive_emv2000_tree_sk.derive b x y j = treeDerive b x y j := by
-  unfold Gen.kd.derive_emv2000_tree_sk.derive treeDerive pyMod
-  simp only [tools_xor, tools_ecb, rep_flatten, zeros, bind, Except.bind, pure, Except.pure]
-  by_cases hb : b = 0
-  · simp [hb, throw, throwThe, MonadExceptOf.throw]
-  · simp only [hb, if_false]
-    repeat (first | rfl | split)
-    all_goals simp_all
-
-theorem kd_tree_walk (b : Nat) (mk iv : Bytes) : ∀ (h j : Nat),
-    Gen.kd.derive_emv2000_tree_sk.walk b mk iv j h = treeWalk b mk iv j h := by
-  intro h
-  induction h with
-  | zero => intro j; rfl
-  | succ h ih =>
-    intro j
-    unfold Gen.kd.derive_emv2000_tree_sk.walk treeWalk pyDiv
-    simp only [ih, kd_tree_derive, bind, Except.bind, pure, Except.pure]
-    by_cases hb : b = 0
-    · simp [hb, throw, throwThe, MonadExceptOf.throw]
-    · simp only [hb, if_false]
-      all_goals
-        cases treeWalk b mk iv (j / b) h with
-        | error e => rfl
-        | ok pg =>
-          obtain ⟨p, gp⟩ := pg
-          first
-          | rfl
-          | (simp only []; done)
-          | (simp only []; cases treeDerive b p gp j <;> rfl)
-
-theorem kd_tree_sk (mk atc : Bytes) (h b : Nat) (iv : Bytes) :
-    Gen.kd.derive_emv2000_tree_sk mk atc h b iv = deriveEmv2000TreeSk mk atc h b iv := by
-  unfold Gen.kd.derive_emv2000_tree_sk deriveEmv2000TreeSk pyDiv
-  simp only [kd_tree_walk, kd_tree_derive, tools_xor, tools_adjust, bind, Except.bind, pure, Except.pure]
-  by_cases h1 : mk.length = 16 <;> by_cases h2 : atc.length = 2 <;> by_cases h3 : iv.length = 16 <;>
-    by_cases hg : b ^ h ≤ 65535 <;> by_cases hb : b = 0 <;>
-    simp [h1, h2, h3, hg, hb, throw, throwThe, MonadExceptOf.throw]
-  all_goals (repeat (first | rfl | split))
-  all_goals simp_all
-
-end Pyemv.ModRefines
